@@ -123,15 +123,56 @@ def multi_file(ctx, thorough):
     return evals, fails, samples
 
 
+def api_truthful(ctx):
+    """The Python API reports the same truth: fix_path's files_fixed <=> bytes changed, fix_string's was_fixed <=> text
+    changed — under both return-code schemes (the scheme must not leak into what the API reports)."""
+    from pymarkdown.api import PyMarkdownApi
+    fails, evals = [], 0
+    with implib.workspace() as ws:
+        for scheme in (None, "default", "minimal"):
+            for n, text in POOL5.items():
+                d = os.path.join(ws, "api")
+                import shutil
+                shutil.rmtree(d, ignore_errors=True)
+                os.makedirs(d)
+                p = implib.write(os.path.join(d, n), text)
+                api = PyMarkdownApi()
+                if scheme:
+                    api.set_string_property("mode.return_code_scheme", scheme)
+                try:
+                    r = api.fix_path(p)
+                    announced = any(os.path.basename(x) == n for x in r.files_fixed)
+                except Exception as e:
+                    fails.append(({"api": "fix_path", "file": n, "scheme": scheme}, "api-fix-failed", repr(e)[:200]))
+                    continue
+                changed = implib.read_bytes(p) != text.encode()
+                evals += 1
+                if changed != announced:
+                    fails.append(({"api": "fix_path", "file": n, "scheme": scheme}, "api-changed-xor-announced", {"changed": changed, "files_fixed": r.files_fixed}))
+                api = PyMarkdownApi()
+                if scheme:
+                    api.set_string_property("mode.return_code_scheme", scheme)
+                try:
+                    r = api.fix_string(text)
+                except Exception as e:
+                    fails.append(({"api": "fix_string", "file": n, "scheme": scheme}, "api-fix-failed", repr(e)[:200]))
+                    continue
+                evals += 1
+                if (r.fixed_file != text) != bool(r.was_fixed):
+                    fails.append(({"api": "fix_string", "file": n, "scheme": scheme}, "api-changed-xor-announced", {"was_fixed": r.was_fixed, "text_changed": r.fixed_file != text}))
+    return evals, fails
+
+
 def run(ctx):
     ctx.lean_stage(["exit_table"], ["Verif.Props.C10"])
     stats_c, samples = F.fix_correspondence(ctx, 40 if ctx.quick() else 600, F.FIX_CORPUS)
     ev_m, fails_m, samples_m = multi_file(ctx, not ctx.quick())
-    for case, sym, det in fails_m:
+    ev_a, fails_a = api_truthful(ctx)
+    for case, sym, det in fails_m + fails_a:
         ctx.report(case, sym, {"detail": det, "oracle": "C10 statement on a multi-file invocation (directory snapshots, Fixed: lines, exit code, file operations)"})
     res = [t for _, t in docs.rule_resources()]
     srcs = docs.repo_sources()
-    pool = (docs.sample(ctx.rng, res, 150) + docs.sample(ctx.rng, srcs, 200)) if ctx.quick() else res + srcs
+    pool = (docs.sample(ctx.rng, res, 150) + docs.sample(ctx.rng, srcs, 200) + docs.sample(ctx.rng, docs.families(), 150)) if ctx.quick() else res + srcs + docs.families()
     pool = list(dict.fromkeys(pool))
     with mp.get_context("fork").Pool(16) as pl:
         results = pl.map(_task, [pool[k:k + 50] for k in range(0, len(pool), 50)], chunksize=1)
@@ -160,6 +201,7 @@ def run(ctx):
     ctx.assumptions += ["A-REC (a fix record implies the content differs) is a fact about rule bodies: explored, not proved",
                         "documents on which scan or fix fails are C07/C15's subject and skipped"]
     ctx.write_evidence({"correspondence": stats_c,
+                        "api": {"evaluations": ev_a, "rule": "5 pool files x {no scheme, default, minimal} x {fix_path, fix_string}", "exhaustive": True},
                         "multi_file": {"evaluations": ev_m, "rule": "subsets (<=3) of 5 pool files x {scan, scan-stdin, scan -l, fix} x {default, minimal}", "exhaustive": not ctx.quick()},
                         "per_document": {"evaluations": evals, "distinct_nontrivial": nontrivial, "skipped_failing_runs": skipped, "listed_inputs_absorbed": base.absorbed,
                                          "rule": "pool documents, default rules; non-trivial = fix changed the file", "exhaustive": not ctx.quick()},
